@@ -108,7 +108,7 @@ def corpus17():
                  "body": [("assign", "f", ("draw", ("bern", c(F(1, 3))))), ("assign", "x", P.det(("add", v("x"), c(2)))),
                           ("if", [(("atom", v("f"), "==", c(1)), [("assign", "x", ("draw", ("unif", 2, 4)))])], None),
                           ("assign", "y", P.det(("add", v("y"), v("x"))))]},
-                [{"x": 1}, {"y": 1}, {"x": 2}], "conditioned-draw-into-reassigned-variable"))
+                [{"x": 1}, {"y": 1}, {"x": 3}], "conditioned-draw-into-reassigned-variable"))
     out.append(({"types": [], "init": [("assign", "f", P.det(c(0))), ("assign", "d", P.det(c(1))), ("assign", "z", P.det(c(0)))],
                  "guard": ("true",),
                  "body": [("assign", "f", ("choice", [(c(F(1, 2)), c(0)), (c(F(1, 4)), c(1)), (c(F(1, 4)), c(2))])),
@@ -116,7 +116,15 @@ def corpus17():
                           ("if", [(("atom", v("f"), ">=", c(1)), [("assign", "d", ("draw", ("bern", c(F(1, 4)))))]),
                                   (("atom", v("d"), "==", c(3)), [("assign", "d", ("draw", ("cat", [c(F(1, 2)), c(F(1, 4)), c(F(1, 4))])))])], None),
                           ("assign", "z", P.det(("add", v("z"), ("mul", v("d"), v("f")))))]},
-                [{"z": 1}, {"d": 1}, {"z": 1, "d": 1}], "conditioned-draws-elif-into-reassigned-variable"))
+                [{"z": 1}, {"d": 2}, {"z": 1, "d": 2}], "conditioned-draws-elif-into-reassigned-variable"))
+    # conditioned draw whose support is SMALLER than the set of values the variable takes otherwise (powers >= |support|,
+    # and a later condition over the variable)
+    out.append(({"types": [], "init": [("assign", "f", P.det(c(0))), ("assign", "x", P.det(c(3))), ("assign", "y", P.det(c(0)))],
+                 "guard": ("true",),
+                 "body": [("assign", "f", ("draw", ("bern", c(F(1, 2))))), ("assign", "x", P.det(c(3))),
+                          ("if", [(("atom", v("f"), "==", c(1)), [("assign", "x", ("draw", ("bern", c(F(1, 3)))))])], None),
+                          ("if", [(("atom", v("x"), "==", c(3)), [("assign", "y", P.det(("add", v("y"), c(1))))])], None)]},
+                [{"x": 2}, {"y": 1}, {"x": 1, "y": 1}], "conditioned-draw-with-smaller-support"))
     # loop guard
     out.append(({"types": [], "init": [("assign", "g", P.det(c(0))), ("assign", "m", P.det(c(0)))],
                  "guard": ("atom", v("g"), "==", c(0)),
